@@ -30,8 +30,11 @@ def gen(tier, rng):
         for t in range(rng.choice([0, 1, 1, 2, 3, 4])):
             tabs.append([rng.randrange(nd), rng.choice([1, 2, -1, 3, Fr(1, 2)]), rng.randrange(0, 9)])
         tabs = [[a, [Fr(s).numerator, Fr(s).denominator], i] for a, s, i in tabs]
-        post = rng.choice(["plain", "plain", "slice", "rebin"])
+        post = rng.choice(["plain", "plain", "slice", "rebin", "intslice"] if nd >= 2 else ["plain", "plain", "slice", "rebin"])
         arg = None
+        if post == "intslice":       # an integer through one axis (often one of two coupled ones): world != pixel count
+            a = rng.randrange(nd)
+            arg = [a, rng.randrange(shape[a])]
         if post == "slice":
             arg = [rng.randrange(0, s // 2) for s in shape]
         elif post == "rebin":
@@ -51,13 +54,25 @@ def build(case):
     nd = len(shape)
     wcs = make_probe(case["A"], case["b"], tw=list(range(nd)), tp=list(range(nd)))
     cube = NDCube(np.zeros(shape), wcs=wcs)
-    for k, (ax, slope, icpt) in enumerate(case["tabs"]):
+    tabs = list(enumerate(case["tabs"]))
+    for k, (ax, slope, icpt) in tabs:
+        if k == len(tabs) - 1 and len(tabs) >= 1:
+            # ask first, add the last extra coordinate afterwards: the descriptions must reflect the cube as it is now
+            try:
+                cube.combined_wcs.low_level_wcs.axis_correlation_matrix
+                cube.array_axis_physical_types
+                str(cube)
+            except Exception:  # noqa
+                pass
         s = Fr(*slope)
         cube.extra_coords.add(f"e{k}", ax, (np.arange(shape[ax]) * float(s) + icpt) * u.m, physical_types=f"custom:w{100 + k}")
     if case["post"] == "slice":
         cube = cube[tuple(slice(a, None) for a in case["arg"])]
     elif case["post"] == "rebin":
         cube = cube.rebin(tuple(case["arg"]))
+    elif case["post"] == "intslice":
+        a, i = case["arg"]
+        cube = cube[tuple(i if k == a else slice(None) for k in range(nd))]
     return cube
 
 
@@ -147,7 +162,9 @@ def run(case):
     if ec.wcs is not None:
         ell = ec.wcs.low_level_wcs
         ew = c14._vec(ell.pixel_to_world_values(*[arrs[mm] for mm in ec.mapping]), ell.world_n_dim)
-        for k in range(ell.world_n_dim):
+        if m != pll.world_n_dim + ell.world_n_dim:
+            why.append(f"combined wcs has {m} world outputs; the primary wcs has {pll.world_n_dim} and the extra coords {ell.world_n_dim}")
+        for k in range(ell.world_n_dim if m == pll.world_n_dim + ell.world_n_dim else 0):
             if not np.allclose(outw[pll.world_n_dim + k], ew[k], rtol=1e-12, atol=1e-9):
                 why.append(f"combined world output {pll.world_n_dim + k} differs from the extra coords' own description")
     # matrix vs finite differences (exact members: marked iff the value can change along that pixel axis)
@@ -179,6 +196,8 @@ def run(case):
 
 def coq_case(case, res):
     o = res["out"]
+    if case["post"] == "intslice":      # world / pixel counts differ: decided by the direct oracle
+        return "mk (C14_corr.mk (C14_corr.WLin [] [] [] [] [] None None) [] [] (C14_corr.OOk 0%nat 0%nat [] [] [] None [] None None)) 0%nat (Some [])"
     e = _coq_expr(case)
     nd = len(case["shape"])
     if o["t"] == "err":
